@@ -94,9 +94,13 @@ def run(ctx):
     rng.shuffle(cells)
     jobs = []
     n = ctx.pick(260, 3000)
-    for i in range(n):
-        cell = cells[i % len(cells)]
-        mode = 'totals' if i % 2 == 0 else 'components'
+    plan = [cells[i % len(cells)] for i in range(n)]
+    # directed: direct-use heat with the industrial plant under every economic model (the only cells in which the
+    # end-use-efficiency relation is stated), both fast reservoir models and both cost modes
+    he_cells = [(e, 2, 9, r) for e in (1, 2, 3) for r in (3, 4)]
+    plan += [he_cells[i % len(he_cells)] for i in range(ctx.pick(36, 240))]
+    for i, cell in enumerate(plan):
+        mode = 'totals' if (i + i // len(he_cells)) % 2 == 0 else 'components'
         base = base_case(rng, cell, mode)
         hi = k_range(base)
         k = math.exp(rng.uniform(math.log(0.05), math.log(max(0.06, min(20.0, hi * 0.999)))))
@@ -160,7 +164,7 @@ def run(ctx):
                         'relations': meta['rel'], 'base_LCOE_LCOH_LCOC': [base.get('LCOE'), base.get('LCOH'), base.get('LCOC')]},
                        limit=4)
     ctx.required.update({'cost-scaling': 200, 'prices-leave-levelized-cost': 300, 'prices-move-npv': 80, 'zero-itc-grant': 150,
-                         'zero-addon': 150, 'half-efficiency': 4})
+                         'zero-addon': 150, 'half-efficiency': 24})
     ctx.rule = ('bases from the configuration grid (three economic models x all end-uses x plant types) in which every cost '
                 'stream is an input (mode "totals": total capital and O&M, well and stimulation cost for redrilling, '
                 'electricity / peaking-fuel rates, grants, fees, incentives; mode "components": every component cost fixed); '
